@@ -39,3 +39,126 @@ Theorem C16_owner_ibc_transfer_reproduced_example :
   nth 13 (b_bal (model_obs w_ok_owner_transfer)) 0 = 700.
 Proof. exact ok_owner_transfer_conserves. Qed.
 Print Assumptions C16_owner_ibc_transfer_reproduced_example.
+
+(** ---------------------------------------------------------------------------------------------
+    Staking share arithmetic (Staking/StakeModel.v): the numbers behind delegate / undelegate in
+    unusual validator states (emptied, slashed, unbonded, full entry lists), for BOTH routes. *)
+From HV Require Import Base.Dec Staking.StakeModel Staking.StakeProofs.
+
+(** For every state (validator record or none, any tokens / shares / status, any delegation, entry
+    count, balance, pending rewards), both methods and every uint256 amount: the precompile body run
+    by the account owner (caller = origin = delegator) succeeds exactly when the native message does
+    and leaves the same validator and delegation numbers.  The only route-specific step, the
+    Delegate event's SharesFromTokens on the validator after the delegation, can never fail. *)
+Theorem C16_stake_owner_body_eq_native :
+  forall s a g m amt, a <> 0 -> 0 <= amt < 2 ^ 256 -> wf s ->
+    precompile_body s a a a g m amt = native s m amt.
+Proof. exact owner_body_eq_native. Qed.
+Print Assumptions C16_stake_owner_body_eq_native.
+
+(** ... and so does the whole transaction (final StateDB commit included) whenever the distribution
+    hook pays no rewards to the delegator itself; with such rewards it is refuted below (K6). *)
+Theorem C16_stake_owner_tx_eq_native_without_self_rewards_partial :
+  forall s a g m amt, a <> 0 -> 0 <= amt < 2 ^ 256 -> wf s -> i_rew s = 0 ->
+    precompile_tx_impl s a a a g m amt = native s m amt.
+Proof. exact owner_tx_eq_native_without_self_rewards. Qed.
+Print Assumptions C16_stake_owner_tx_eq_native_without_self_rewards_partial.
+
+Theorem C16_stake_owner_tx_refuted_K6 :
+  o_ok (native w_k6 SDelegate 120) = true /\
+  precompile_body w_k6 1 1 1 false SDelegate 120 = native w_k6 SDelegate 120 /\
+  precompile_tx_impl w_k6 1 1 1 false SDelegate 120 = unchanged w_k6.
+Proof. exact k6_commit_refuted. Qed.
+Print Assumptions C16_stake_owner_tx_refuted_K6.
+
+(** A validator record without tokens and shares (every delegator left; the record is kept until the
+    unbonding period ends), whatever its status: a delegation succeeds on both routes, the exchange
+    rate becomes one (shares = tokens). *)
+Theorem C16_stake_delegate_to_empty_validator :
+  forall s v a g amt, a <> 0 -> i_val s = Some v -> v_tokens v = 0 -> v_shares v = 0 ->
+    0 < amt <= i_bal s + i_rew s -> amt < 2 ^ 256 ->
+    precompile_body s a a a g SDelegate amt =
+      mk_sout true (Some (set_ts v amt (of_int amt))) (Some (opt0 (i_del s) + of_int amt)).
+Proof. exact owner_delegate_to_empty_validator. Qed.
+Print Assumptions C16_stake_delegate_to_empty_validator.
+
+(** non-vacuity, and the state of the seeded change: computing the event's shares BEFORE the message
+    refuses exactly this state, which the native message accepts *)
+Theorem C16_stake_emptied_validator_example :
+  native w_emptied SDelegate 300000000000000000 =
+    mk_sout true (Some (mk_val 300000000000000000 300000000000000000000000000000000000 2%N false 0))
+                 (Some 300000000000000000000000000000000000) /\
+  precompile_tx_impl w_emptied 1 1 1 false SDelegate 300000000000000000 =
+    native w_emptied SDelegate 300000000000000000 /\
+  o_ok (precompile_body_event_first w_emptied 1 1 1 false 300000000000000000) = false.
+Proof. exact emptied_validator_example. Qed.
+Print Assumptions C16_stake_emptied_validator_example.
+
+Theorem C16_stake_event_first_refuses_every_empty_validator :
+  forall s v a g amt, i_val s = Some v -> v_tokens v = 0 ->
+    o_ok (precompile_body_event_first s a a a g amt) = false.
+Proof. exact event_first_refuses_empty_validator. Qed.
+Print Assumptions C16_stake_event_first_refuses_every_empty_validator.
+
+(** exact effect of a successful delegation / undelegation (both routes, by the first theorem) *)
+Theorem C16_stake_delegate_effect :
+  forall s amt, wf s -> o_ok (native s SDelegate amt) = true ->
+  exists v v' iss, i_val s = Some v /\ o_val (native s SDelegate amt) = Some v' /\
+    0 < amt <= i_bal s + i_rew s /\ 0 <= iss /\
+    v_tokens v' = v_tokens v + amt /\ v_shares v' = v_shares v + iss /\
+    o_del (native s SDelegate amt) = Some (opt0 (i_del s) + iss).
+Proof. exact delegate_effect. Qed.
+Print Assumptions C16_stake_delegate_effect.
+
+Theorem C16_stake_undelegate_effect :
+  forall s amt, wf s -> o_ok (native s SUndelegate amt) = true ->
+  exists v d sh, i_val s = Some v /\ i_del s = Some d /\ 0 <= sh <= d /\ (i_entries s < i_max s)%N /\
+    o_del (native s SUndelegate amt) = (if d - sh =? 0 then None else Some (d - sh)) /\
+    match o_val (native s SUndelegate amt) with
+    | Some v2 => v_shares v2 = v_shares v - sh /\ 0 <= v_tokens v2 <= v_tokens v /\ v_status v2 = v_status v
+    | None => v_shares v = sh /\ v_status v = 1%N
+    end.
+Proof. exact undelegate_effect. Qed.
+Print Assumptions C16_stake_undelegate_effect.
+
+(** max-entries rule: with MaxEntries unbonding entries the undelegation is refused, state unchanged *)
+Theorem C16_stake_undelegate_max_entries :
+  forall s amt, (i_max s <= i_entries s)%N -> native s SUndelegate amt = unchanged s.
+Proof. exact undelegate_max_entries. Qed.
+Print Assumptions C16_stake_undelegate_max_entries.
+
+Theorem C16_stake_max_entries_example :
+  let v := mk_val 2000000000000000000 2000000000000000000000000000000000000 3%N false 0 in
+  let d := Some 1000000000000000000000000000000000000 in
+  o_ok (native (mk_sin (Some v) d 7%N 7%N 0 0 false) SUndelegate 5) = false /\
+  o_ok (native (mk_sin (Some v) d 6%N 7%N 0 0 false) SUndelegate 5) = true.
+Proof. exact max_entries_example. Qed.
+Print Assumptions C16_stake_max_entries_example.
+
+(** shares <-> tokens with the SDK's truncation: bonding [a] tokens and converting the issued shares
+    back never yields more than [a], and loses at most two tokens plus the token worth of one share
+    unit; at exchange rate one the round trip is exact *)
+Theorem C16_stake_roundtrip_upper :
+  forall v a sh, 0 < v_tokens v -> 0 < v_shares v -> 0 <= a -> shares_from_tokens v a = Some sh ->
+    0 <= sh /\ truncate (tokens_from_shares v sh) <= a.
+Proof. exact roundtrip_le. Qed.
+Print Assumptions C16_stake_roundtrip_upper.
+
+Theorem C16_stake_roundtrip_lower :
+  forall v a sh, 0 < v_tokens v -> 0 < v_shares v -> 0 <= a -> shares_from_tokens v a = Some sh ->
+    a - v_tokens v / v_shares v - 2 <= truncate (tokens_from_shares v sh).
+Proof. exact roundtrip_ge. Qed.
+Print Assumptions C16_stake_roundtrip_lower.
+
+Theorem C16_stake_roundtrip_exact_at_rate_one :
+  forall v a, 0 < v_tokens v -> v_shares v = of_int (v_tokens v) -> 0 <= a ->
+    shares_from_tokens v a = Some (of_int a) /\ truncate (tokens_from_shares v (of_int a)) = a.
+Proof. exact roundtrip_exact_rate_one. Qed.
+Print Assumptions C16_stake_roundtrip_exact_at_rate_one.
+
+Theorem C16_stake_roundtrip_example :
+  let v := mk_val 3 2000000000000000000 3%N false 0 in
+  shares_from_tokens v 1 = Some 666666666666666666 /\
+  truncate (tokens_from_shares v 666666666666666666) = 0.
+Proof. exact roundtrip_example. Qed.
+Print Assumptions C16_stake_roundtrip_example.
